@@ -54,40 +54,7 @@ def _degenerate_deep(prog, cond, val, depth=0):
     return False
 
 
-def _tested_outcome(cond, val):
-    """(call expression, outcome) when the branch fact tests the Ok/Err/Some/None outcome of a
-    call result: discr(call), discr(branch(call)), discr((branch(call) as Continue).0),
-    discr((call as Ok).0)"""
-    if cond[0] != "discr" or isinstance(val, bool):
-        return None
-    x = cond[1]
-    while isinstance(x, tuple) and x and x[0] in ("ref", "deref"):
-        x = x[1]
-    payload = False
-    if x[0] == "field" and x[2] in ("0", 0) and isinstance(x[1], tuple) and x[1][0] == "variant" \
-            and x[1][2] in ("Continue", "Ok"):
-        payload = True
-        x = x[1][1]
-    tried = False
-    if isinstance(x, tuple) and x and x[0] == "callat" and x[2] == "branch" and x[3]:
-        tried = True
-        x = x[3][0]
-    if not (isinstance(x, tuple) and x and x[0] in ("call", "callat")):
-        return None
-
-    def pick(zero, one):
-        if val == 0 or (isinstance(val, tuple) and val[0] == "not" and 1 in val[1] and 0 not in val[1]):
-            return zero
-        if val == 1 or (isinstance(val, tuple) and val[0] == "not" and 0 in val[1] and 1 not in val[1]):
-            return one
-        return None
-    if payload:
-        o = pick("Ok(None)", "Ok(Some)")            # Option: None = 0, Some = 1
-    elif tried:
-        o = pick("Ok", "Err")                       # ControlFlow: Continue = 0, Break = 1
-    else:
-        o = None        # the type decides (Result: Ok = 0; Option: None = 0): see the caller
-    return (x, o, val)
+from ..sym import _tested_outcome  # noqa: E402
 
 
 def degenerate_edges(fn, sym, prog=None, opaque=None):
